@@ -97,7 +97,8 @@ namespace xsimd
         template <class A, class T>
         XSIMD_INLINE batch_bool<T, A> is_even(batch<T, A> const& self, requires_arch<generic>) noexcept
         {
-            return is_flint(self * T(0.5));
+            // self must be an integer itself: half of the smallest subnormal rounds to 0
+            return is_flint(self) && is_flint(self * T(0.5));
         }
 
         // is_flint
@@ -112,7 +113,8 @@ namespace xsimd
         template <class A, class T>
         XSIMD_INLINE batch_bool<T, A> is_odd(batch<T, A> const& self, requires_arch<generic>) noexcept
         {
-            return is_even(self - T(1.));
+            // not is_even(self - 1): self - 1 is rounded back to self for large values
+            return is_flint(self) && !is_flint(self * T(0.5));
         }
 
         // isinf
